@@ -804,6 +804,10 @@ func schedules(thorough bool) []sched {
 		{name: "preloaded-ab/2reg-closing+cleartype", pre: []up.Op{reg("a", "b")}, tasks: [][]up.Op{{reg("b", "c")}, {reg("c", "a")}, {{Kind: "cleartype", From: "a"}}}},
 		{name: "2tasks-3reg-cycle", tasks: [][]up.Op{{reg("a", "b"), reg("c", "a")}, {reg("b", "c")}}},
 		{name: "2reg-cycle+reader", tasks: [][]up.Op{{reg("a", "b")}, {reg("b", "a")}}, reader: true},
+		// the racing registrations' sources already have upcasters (the number of source
+		// types does not change when they are inserted)
+		{name: "preloaded-ac-bd/2reg-cycle", pre: []up.Op{reg("a", "c"), reg("b", "d")}, tasks: [][]up.Op{{reg("a", "b")}, {reg("b", "a")}}},
+		{name: "preloaded-ac-bc/2reg-cycle-through-shared-target", pre: []up.Op{reg("a", "c"), reg("b", "c")}, tasks: [][]up.Op{{reg("c", "a")}, {reg("c", "b")}, {{Kind: "cleartype", From: "a"}}}},
 	}
 	if thorough {
 		l = append(l,
